@@ -30,6 +30,8 @@ class E4:
         self.site_rel = {}
         self.callee_sites = {}
         self.stmt_writes = set()
+        from .r_b1 import atomic_sites
+        self.release_prims = {x["body"].did for x in atomic_sites(facts) if x["obj"] == "refcount" and x["method"] == "fetch_sub"}
 
     def arg_like(self, ty):
         t = ty.replace("&mut ", "&")
@@ -142,7 +144,10 @@ class E4:
                 out.setdefault(bi, "Vec::set_len on the shared Vec")
             elif r.get("local") and r.get("did") is not None and passes_self:
                 cb = self.facts.by_did.get(r["did"])
-                if cb is not None and cb.did not in stack and self.fn_writes_self(cb, stack):
+                if cb is not None and cb.did in self.release_prims:
+                    # giving up the handle's reference is a state change of the handle (it no longer owns what it points to)
+                    out.setdefault(bi, "call %s (releases the handle's reference)" % cb.id.rsplit("::", 1)[-1])
+                elif cb is not None and cb.did not in stack and self.fn_writes_self(cb, stack):
                     out.setdefault(bi, "call %s (writes through self)" % cb.id.rsplit("::", 1)[-1])
         return out
 
